@@ -60,8 +60,8 @@ def cases(tier, seed):
         for (name, d, npts) in geoms:
             for ad in absdeltas:
                 for mi in maxiters:
-                    if api == "fun" and mi not in (1, 5):
-                        continue
+                    if api == "fun" and (mi not in (1, 5) or d != 2):
+                        continue   # library-built value_and_grad / hessp: d=2, two iteration limits
                     for check in CHECKS:
                         for start in O.start_grid(name, d, seed, npts):
                             out.append(dict(check=check, obj=name, d=d, seed=seed, start=start, maxiter=mi,
@@ -164,11 +164,30 @@ def _cls(status):
 
 
 def _curv_label(ref, x):
+    """Curvature class of the gradient direction by the numpy reference.  'zerocurv' is everything within
+    round-off of zero (the JAX Hessian-vector product may round differently), so that 'negcurv' and
+    'poscurv' are unambiguous for the library too."""
     g = ref.g(x)
     if not np.any(g != 0):
         return "stationary", 0., g
-    c = float(g @ ref.h(x) @ g)
-    return ("negcurv" if c < 0 else ("zerocurv" if c == 0 else "poscurv")), c, g
+    H = ref.h(x)
+    c = float(g @ H @ g)
+    margin = 1e-10*float(g @ g)*max(1e-300, np.abs(H).max())
+    return ("negcurv" if c < -margin else ("poscurv" if c > margin else "zerocurv")), c, g
+
+
+def _iterations_from_log(log):
+    """Re-derive the accepted iterates of an eager run from its evaluation log (a trial is accepted iff its
+    energy is <= the current one -- the rule stated for the halving line search).  Returns
+    [(iterate, number of trials it took to get there)], start first."""
+    its = [(log[0][0], 0)]
+    cur, n = log[0][1], 0
+    for p, e in log[1:]:
+        n += 1
+        if e <= cur:
+            its.append((p, n))
+            cur, n = e, 0
+    return its, n       # n = trailing rejected trials
 
 
 def _progress_possible(ref, x, d):
@@ -277,25 +296,40 @@ def check_agree(case):
     ref = ob["ref"]
     x0 = np.asarray(case["start"], float)
     lab0, c0, g0 = _curv_label(ref, x0)
-    a = _run_variant("eager", case, ob)
+    log = []
+    a = _run_variant("eager", case, ob, log if case["api"] == "explicit" else None)
     b = _run_variant("static", case, ob)
     if "exc" in a or "exc" in b:
         if a.get("exc", "").split(":")[0] == b.get("exc", "").split(":")[0]:
             return skip("both variants raise %s" % a["exc"].split(":")[0])
         return bad("only one variant raises: eager=%s static=%s [%s]" % (a.get("exc"), b.get("exc"), _ckey(case)),
                    finding_key="agree|one-raises|start=%s" % lab0)
-    lab1, c1, _ = _curv_label(ref, a["x"])
-    where = "stop-point-%s" % lab1
+    # which structural event did the runs go through?  (semantic key = suspected root cause)
+    pts = [x0, a["x"], b["x"]]
+    last_trials = None
+    if log:
+        its, trailing = _iterations_from_log(log)
+        pts += [p for p, _ in its]
+        last_trials = its[-1][1] if (trailing == 0 and len(its) > 1) else None
+    labs = [_curv_label(ref, p)[0] for p in pts if np.all(np.isfinite(p))]
+    if "negcurv" in labs:
+        event = "iterate-with-negative-curvature-along-gradient"
+    elif case["absdelta"] is not None and a["status"] == 0 and last_trials == 2:
+        event = "absdelta-met-after-exactly-one-halving"
+    elif "zerocurv" in labs:
+        event = "iterate-with-zero-curvature-along-gradient"
+    else:
+        event = "positive-curvature-only"
     if _cls(a["status"]) != _cls(b["status"]):
-        return bad("eager and static Newton-CG disagree on status: eager=%d static=%d (eager nit=%d, static nit=%d; eager stopped "
-                   "at a point with g.H.g=%.3g) [%s]" % (a["status"], b["status"], a["nit"], b["nit"], c1, _ckey(case)),
-                   finding_key="agree|status|eager-%s,static-%s|%s" % (_cls(a["status"]), _cls(b["status"]), where),
+        return bad("eager and static Newton-CG disagree on status: eager=%d static=%d (eager nit=%d, static nit=%d; %s) [%s]"
+                   % (a["status"], b["status"], a["nit"], b["nit"], event, _ckey(case)),
+                   finding_key="agree|%s|status|eager-%s,static-%s" % (event, _cls(a["status"]), _cls(b["status"])),
                    detail=dict(eager=a["x"].tolist(), static=b["x"].tolist()))
     dx = np.abs(a["x"] - b["x"]).max()
     if not dx <= X_TOL*max(1., np.abs(a["x"]).max()):
-        return bad("eager and static Newton-CG disagree on x by %.3g (status eager=%d static=%d, nit %d/%d) [%s]"
-                   % (dx, a["status"], b["status"], a["nit"], b["nit"], _ckey(case)),
-                   finding_key="agree|x|status-%s|nit-%s|%s" % (_cls(a["status"]), "equal" if a["nit"] == b["nit"] else "differs", where),
+        return bad("eager and static Newton-CG disagree on x by %.3g (status eager=%d static=%d, nit %d/%d; %s) [%s]"
+                   % (dx, a["status"], b["status"], a["nit"], b["nit"], event, _ckey(case)),
+                   finding_key="agree|%s|x|nit-%s" % (event, "equal" if a["nit"] == b["nit"] else "differs"),
                    detail=dict(eager=a["x"].tolist(), static=b["x"].tolist()))
     moved = bool(np.any(a["x"] != x0))
     return ok(nontrivial=moved, outcome="agree|start-%s|%s|status-%s" % (lab0, "moved" if moved else "stayed", _cls(a["status"])),
